@@ -99,14 +99,17 @@ ItemAspects(T, e, o) ==
 RECURSIVE ItemsAspects(_, _, _)
 ItemsAspects(T, exp, obs) ==
   IF exp = <<>> THEN (IF obs = <<>> THEN {} ELSE {"shape.extra." \o Head(obs).k})
-  ELSE IF Head(exp).k = "info" /\ Head(exp).what \in {"other", "list-unspecified"} THEN {}   \* free-form output
+  ELSE IF Head(exp).k = "info" /\ Head(exp).what \in {"other", "list-unspecified", "conns"} THEN {}   \* free-form output
   ELSE IF Head(exp).k = "closed" THEN
-       \* the order of the closing notices at end of input is not specified: compare as sets
-       IF /\ Len(obs) = Len(exp)
-          /\ \A i \in 1..Len(exp) : exp[i].k = "closed" /\ obs[i].k = "closed"
-          /\ {<<exp[i].role, ToCaps(exp[i].ord)>> : i \in 1..Len(exp)}
-               = {<<obs[i].role, CharsOf(obs[i].name)>> : i \in 1..Len(obs)}
-       THEN {} ELSE {"notice.closed"}
+       \* the order of the closing notices at end of input is not specified: compare the run as a set
+       LET n == CHOOSE j \in 1..Len(exp) : (\A i \in 1..j : exp[i].k = "closed")
+                                             /\ (j = Len(exp) \/ exp[j + 1].k # "closed")
+       IN IF /\ Len(obs) >= n
+             /\ \A i \in 1..n : obs[i].k = "closed"
+             /\ {<<exp[i].role, ToCaps(exp[i].ord)>> : i \in 1..n}
+                  = {<<obs[i].role, CharsOf(obs[i].name)>> : i \in 1..n}
+          THEN ItemsAspects(T, SubSeq(exp, n + 1, Len(exp)), SubSeq(obs, n + 1, Len(obs)))
+          ELSE {"notice.closed"}
   ELSE IF obs = <<>> THEN (IF \A i \in 1..Len(exp) : exp[i].may THEN {}
                            ELSE {"shape.missing." \o (CHOOSE e \in {exp[i] : i \in 1..Len(exp)} : ~e.may).k})
   ELSE IF KindOk(Head(exp), Head(obs))
@@ -183,6 +186,6 @@ Spec == Init /\ [][Next]_vars
 
 \* reporting (always TRUE)
 Report ==
-  /\ (bad' # {} => PrintT(<<"FAIL", tid, l, bad'>>))
+  /\ (bad' # {} => PrintT(<<"FAIL", tid, l, bad'>>) /\ PrintT(<<"EXPECT", tid, l, res'.oc, res'.out>>))
   /\ (l' = Len(Traces[tid].events) + 1 => PrintT(<<"DONE", tid>>))
 =============================================================================
